@@ -62,9 +62,11 @@ Ltac dr_leaf Hq w x y z g0 g1 g2 h :=
   kill_renorm; apply Val_inj;
   first [ apply leaf_dr; drf | apply (leaf_dr_b w x y z g0 g1 g2 h); drf ].
 
+(* the configured gains of the Madgwick target (gain = 0.4, gain_imu, gain_marg): returned unchanged after the call *)
+Definition mad_cfg : list R := [2/5; 33/1000; 41/1000].
 (* ---- Madgwick ------------------------------------------------------------------------------------------- *)
 Lemma mad_imu_a0 w x y z g0 g1 g2 dt : sq4 w x y z = 1 ->
-  C13_mad_imu_a0_R w x y z g0 g1 g2 dt = Val (dr w x y z g0 g1 g2 dt).
+  C13_mad_imu_a0_R w x y z g0 g1 g2 dt = Val (dr w x y z g0 g1 g2 dt ++ mad_cfg).
 Proof.
   intros Hq. unfold C13_mad_imu_a0_R. cbv zeta. unit_sqrt Hq. gate1. case_gyr Hq g0 g1 g2.
   dr_leaf Hq w x y z g0 g1 g2 dt.
@@ -72,7 +74,7 @@ Qed.
 (* with a magnetometer reading present or not: a zero magnetometer makes updateMARG delegate to updateIMU at the
    filter's own Dt = 1/100 (the caller's dt is dropped on that path) *)
 Lemma mad_marg_a0 w x y z g0 g1 g2 m0 m1 m2 dt : sq4 w x y z = 1 ->
-  exists h, (h = dt \/ h = 1/100) /\ C13_mad_marg_a0_R w x y z g0 g1 g2 m0 m1 m2 dt = Val (dr w x y z g0 g1 g2 h).
+  exists h, (h = dt \/ h = 1/100) /\ C13_mad_marg_a0_R w x y z g0 g1 g2 m0 m1 m2 dt = Val (dr w x y z g0 g1 g2 h ++ mad_cfg).
 Proof.
   intros Hq. unfold C13_mad_marg_a0_R. cbv zeta. unit_sqrt Hq. gate1.
   destruct (Req_EM_T 0 (sqrt (g0 * g0 + g1 * g1 + g2 * g2))) as [Hg|Hg].
@@ -82,8 +84,8 @@ Proof.
     + exists dt. split; [left; reflexivity|]. dr_leaf Hq w x y z g0 g1 g2 dt.
 Qed.
 Lemma mad_marg_am0 w x y z g0 g1 g2 dt : sq4 w x y z = 1 ->
-  C13_mad_marg_am0_R w x y z g0 g1 g2 dt = Val (dr w x y z g0 g1 g2 (1/100)) \/
-  (g0 = 0 /\ g1 = 0 /\ g2 = 0 /\ C13_mad_marg_am0_R w x y z g0 g1 g2 dt = Val [w;x;y;z]).
+  C13_mad_marg_am0_R w x y z g0 g1 g2 dt = Val (dr w x y z g0 g1 g2 (1/100) ++ mad_cfg) \/
+  (g0 = 0 /\ g1 = 0 /\ g2 = 0 /\ C13_mad_marg_am0_R w x y z g0 g1 g2 dt = Val ([w;x;y;z] ++ mad_cfg)).
 Proof.
   intros Hq. unfold C13_mad_marg_am0_R. cbv zeta. unit_sqrt Hq. gate1.
   destruct (Req_EM_T 0 (sqrt (g0 * g0 + g1 * g1 + g2 * g2))) as [Hg|Hg].
@@ -93,19 +95,19 @@ Qed.
 
 (* ---- Mahony: the output is [q'; b'] — the carried gyro bias b is returned unchanged on a dropout ----------- *)
 Lemma mah_imu_a0 w x y z g0 g1 g2 b0 b1 b2 dt : sq4 w x y z = 1 ->
-  C13_mah_imu_a0_R w x y z g0 g1 g2 b0 b1 b2 dt = Val (dr w x y z g0 g1 g2 dt ++ [b0;b1;b2]).
+  C13_mah_imu_a0_R w x y z g0 g1 g2 b0 b1 b2 dt = Val (dr w x y z g0 g1 g2 dt ++ [b0;b1;b2; 3; 1/20]).
 Proof.
   intros Hq. unfold C13_mah_imu_a0_R. cbv zeta. unit_sqrt Hq. gate1. case_gyr Hq g0 g1 g2.
   dr_leaf Hq w x y z g0 g1 g2 dt.
 Qed.
 Lemma mah_marg_a0 w x y z g0 g1 g2 m0 m1 m2 b0 b1 b2 dt : sq4 w x y z = 1 ->
-  C13_mah_marg_a0_R w x y z g0 g1 g2 m0 m1 m2 b0 b1 b2 dt = Val (dr w x y z g0 g1 g2 dt ++ [b0;b1;b2]).
+  C13_mah_marg_a0_R w x y z g0 g1 g2 m0 m1 m2 b0 b1 b2 dt = Val (dr w x y z g0 g1 g2 dt ++ [b0;b1;b2; 3; 1/20]).
 Proof.
   intros Hq. unfold C13_mah_marg_a0_R. cbv zeta. unit_sqrt Hq. gate1. case_gyr Hq g0 g1 g2.
   dr_leaf Hq w x y z g0 g1 g2 dt.
 Qed.
 Lemma mah_marg_am0 w x y z g0 g1 g2 b0 b1 b2 dt : sq4 w x y z = 1 ->
-  C13_mah_marg_am0_R w x y z g0 g1 g2 b0 b1 b2 dt = Val (dr w x y z g0 g1 g2 dt ++ [b0;b1;b2]).
+  C13_mah_marg_am0_R w x y z g0 g1 g2 b0 b1 b2 dt = Val (dr w x y z g0 g1 g2 dt ++ [b0;b1;b2; 3; 1/20]).
 Proof.
   intros Hq. unfold C13_mah_marg_am0_R. cbv zeta. unit_sqrt Hq. gate1. case_gyr Hq g0 g1 g2.
   dr_leaf Hq w x y z g0 g1 g2 dt.
